@@ -10,6 +10,7 @@ import (
 	"fmt"
 	"os"
 	"path/filepath"
+	"regexp"
 	"sort"
 	"sync"
 	"testing"
@@ -56,7 +57,8 @@ type proc struct {
 
 type kase struct {
 	ID      string   `json:"id"`
-	Op      string   `json:"op"` // parse | join | world
+	Op      string   `json:"op"`          // parse | roundtrip | join | world | suffix
+	N       int      `json:"n,omitempty"` // suffix: number of names generated as create.go does
 	Backend string   `json:"backend,omitempty"`
 	Name    string   `json:"name,omitempty"`  // parse: raw name
 	Elems   []string `json:"elems,omitempty"` // join
@@ -282,6 +284,58 @@ func runWorld(k *kase) {
 	k.Impl = res
 }
 
+var lettersRE = regexp.MustCompile(`(?m)^\s*letters\s*=\s*"([^"]*)"`)
+
+// runSuffix builds workload names exactly as cluster/calcium/create.go does — suffix :=
+// utils.RandomString(6); name := utils.MakeWorkloadName(app, entry, suffix) — and parses them back.
+// The random suffixes themselves are not part of the case: the result reports the alphabet (as read
+// from the source constant and as observed), how many names failed, and a few samples (failing first).
+func runSuffix(k *kase) {
+	w := k.World[0]
+	repo := os.Getenv("VERIF_REPO_DIR")
+	if repo == "" {
+		repo = "/repo"
+	}
+	src := ""
+	if b, err := os.ReadFile(filepath.Join(repo, "utils", "utils.go")); err == nil {
+		if m := lettersRE.FindSubmatch(b); m != nil {
+			src = string(m[1])
+		}
+	}
+	seen := map[rune]bool{}
+	type sample struct {
+		Sfx   string `json:"sfx"`
+		App   string `json:"app"`
+		Entry string `json:"entry"`
+		Ident string `json:"ident"`
+		Err   bool   `json:"err,omitempty"`
+	}
+	bad, good := []sample{}, []sample{}
+	nbad := 0
+	for i := 0; i < k.N; i++ {
+		sfx := utils.RandomString(6)
+		for _, c := range sfx {
+			seen[c] = true
+		}
+		a, e, id, err := utils.ParseWorkloadName(utils.MakeWorkloadName(w.App, w.Entry, sfx))
+		sm := sample{Sfx: sfx, App: a, Entry: e, Ident: id, Err: err != nil}
+		if err != nil || a != w.App || e != w.Entry || id != sfx {
+			nbad++
+			if len(bad) < 8 {
+				bad = append(bad, sm)
+			}
+		} else if len(good) < 4 {
+			good = append(good, sm)
+		}
+	}
+	obs := []rune{}
+	for c := range seen {
+		obs = append(obs, c)
+	}
+	sort.Slice(obs, func(i, j int) bool { return obs[i] < obs[j] })
+	k.Impl = map[string]any{"alphabet_src": src, "alphabet_seen": string(obs), "failed": nbad, "samples": append(bad, good...)}
+}
+
 func run(k *kase) {
 	kind, msg := hx.Guard(20*time.Second, func() {
 		switch k.Op {
@@ -302,6 +356,8 @@ func run(k *kase) {
 			}
 		case "join":
 			k.Impl = map[string]any{"path": filepath.Join(k.Elems...)}
+		case "suffix":
+			runSuffix(k)
 		case "world":
 			runWorld(k)
 		}
@@ -459,6 +515,8 @@ func corpus() []*kase {
 	w := func(a, e, n, id string) wl { return wl{App: a, Entry: e, Node: n, ID: id, Sfx: "abcdef"} }
 	return []*kase{
 		{ID: "c-parse-leading-slash", Op: "roundtrip", World: []wl{w("/a", "e", "n", "id00")}},
+		{ID: "c-suffix-shop-web", Op: "suffix", N: 2000, World: []wl{w("shop", "web", "n1", "id00")}},
+		{ID: "c-suffix-underscore-app", Op: "suffix", N: 500, World: []wl{w("a_b", "web-1", "n1", "id00")}},
 		{ID: "c-parse-us", Op: "roundtrip", World: []wl{w("a_b", "e", "n", "id00")}},
 		{ID: "c-join", Op: "join", Elems: []string{"/deploy", "a/..", "", ".", "x"}},
 		{ID: "c-slash-collision", Op: "world", Backend: "etcd", World: []wl{w("a/b", "c", "n", "id00"), w("a", "b", "n", "id01")},
